@@ -355,7 +355,7 @@ class Check:
     def match_finding(self, ob):
         for f in self.findings:
             props = f["property"] if isinstance(f["property"], list) else [f["property"]]
-            if f.get("status") != "open" or self.prop not in props:
+            if f.get("status") != "open" or (self.prop not in props and not getattr(self, "inherit_findings", False)):
                 continue
             pats = f["instance"] if isinstance(f["instance"], list) else [f["instance"]]
             obpats = f["obligation"] if isinstance(f["obligation"], list) else [f["obligation"]]
